@@ -973,7 +973,7 @@ pub fn handle_xclaim(storage: &Arc<StorageEngine>, db: usize, parts: &[RespFrame
     };
     
     // Claim messages
-    match stream.claim_messages(&group_name, &consumer_name, min_idle_ms, &ids, force) {
+    match stream.claim_messages(&group_name, &consumer_name, min_idle_ms, &ids, force, justid) {
         Ok(entries) => {
             if justid {
                 // Return just IDs
